@@ -24,6 +24,12 @@ def pipelines(seed, root):
     kw = {'k': 'transform', 'cls': 'PK', 'fields': {'e': {'args': ['u', 'name'], 'posbind': ['a'], 'kwbind': {'name': 'b'}}},
           'params': {}, 'cargs': {}, 'defaults': {}, 'inherit': True}
 
+    # equal leaves at several sites of one hash: constructor arguments that are None / equal to each other, next to Silent arguments
+    # (a Silent position is hashed as a leaf None as well): the persistent digest must not depend on which of them are one object
+    nn = {'k': 'transform', 'cls': 'PN', 'fields': {'c': {'args': ['a', '_n', 'b'], 'silent': ['b']}, 'd': {'args': ['a', '_n', '_m']},
+                                                    'e': {'args': ['b', '_m', 'a'], 'silent': ['a', 'b']}},
+          'params': {}, 'cargs': {'n': None, 'm': rng.choice([None, 0, 'x'])}, 'defaults': {}, 'inherit': True}
+
     def ch(*ls):
         return {'k': 'chain', 'flavour': 'chain', 'layers': list(ls)}
     flt = {'k': 'filter', 'f': 'pp', 'args': ['k'], 'table': [[['u'], True], [['v'], False]]}
@@ -59,6 +65,8 @@ def pipelines(seed, root):
         ('apply-shared-partial-columns', ch(src, {'k': 'apply', 'fns': {'a': 'x', 'b': 'x'}, 'partial': 'ap.shared'}, tr,
                                             {'k': 'columns', 'names': ['c'], 'root': 1, 'shard': 2}), ['c']),
         ('kw-binding', ch(src, kw), ['e']),
+        ('none-args-silent', ch(src, nn), ['c', 'd', 'e', ('c', 'e')]),
+        ('none-args-silent-disk', ch(src, nn, {'k': 'disk', 'names': ['c', 'e'], 'root': 0}), ['c', 'e']),
         ('merge', ch({'k': 'merge', 'parts': [src, src2]}, tr), ['c', 'ids']),
         ('filter', ch(src, {'k': 'filter', 'f': 'pp', 'args': ['k'], 'table': [[['u'], True], [['v'], False]]}), ['ids', 'a']),
         ('filter-kw', ch(src, kw, {'k': 'filter', 'f': 'pe', 'args': ['e'], 'table': []}), ['ids']),
